@@ -12,13 +12,19 @@
          selected grid indices; spec_amp : the index-level definition
          P[p][k] = S(Ttx[tx_k][G_p] - a, Trx[rx_k][G_p] - a) * Qtx[tx_k][G_p] * Qrx[rx_k][G_p]
          in the (element, grid) layout of RayWeights, None when an index is out of range.
+   Section 5 (proofs: Proofs/PipelineProofs.v, model: Model/Pipeline.v): the public multi-frequency
+   entry points ray_weights_for_views, scat_unshifted_transfer_functions, timeshift_spectra,
+   singlefreq_/multifreq_scat_transfer_functions.  Paths are keys into a table `paths`; a view is
+   (key of tx path, key of rx path, scat key); H[s][t][b] is get3 H s t b (scatterer, timetrace, bin).
    Not covered by theorems (only by the correspondence): numpy's expansion of slices / Ellipsis /
    masks into index lists, dtype promotion, the physical content of the transmission-reflection
    and beamspread factors (C04, C06, C07), floating-point rounding. *)
 From Coq Require Import List ZArith Bool Arith Reals QArith.
+From Coquelicot Require Import Complex.
 From Arim Require Import Base.Num Base.NumR Base.NumQ Model.Interface Model.Weights Model.Beamspread
-                         Model.ScatMatrix Model.Chunk Model.Amplitudes
-                         Proofs.BeamspreadProofs Proofs.AmplitudesProofs Proofs.AmplitudesWeightsProofs.
+                         Model.ScatMatrix Model.Chunk Model.Amplitudes Model.Pipeline Model.Dft
+                         Proofs.BeamspreadProofs Proofs.AmplitudesProofs Proofs.AmplitudesWeightsProofs
+                         Proofs.PipelineProofs.
 Import ListNotations.
 Local Close Scope Q_scope.   (* QArith opens it *)
 
@@ -273,6 +279,319 @@ Theorem sensitivity_chunk_independent_assisted_mat : forall (T : Type) (N : Num 
     else None.
 Proof. intros T N tx rx ne ng Qtx Qrx Ttx Trx a o H1 H2. exact (sensitivity_assisted_mat_unchunked N tx rx ne ng Qtx Qrx Ttx Trx a o H1 H2). Qed.
 
+(* ===== 5. the public multi-frequency entry points ================================================= *)
+
+(* ----- 5.1 ray_weights_for_views ----- *)
+
+(* one entry per distinct path of the views *)
+Theorem ray_weights_one_entry_per_path : forall (T : Type) (N : Num T) paths views frequency width
+    use_directivity use_beamspread use_transrefl use_attenuation rw,
+  ray_weights_for_views N paths views frequency width use_directivity use_beamspread use_transrefl use_attenuation = Some rw ->
+  map e_path rw = nodup Nat.eq_dec (map v_tx views ++ map v_rx views) /\ NoDup (map e_path rw).
+Proof. intros T N paths views frequency width ud ub ut ua rw H. exact (rwfv_paths N paths views frequency width ud ub ut ua rw H). Qed.
+
+(* which path of a view gets which weights: its tx path the TRANSMIT weights, its rx path the RECEIVE
+   weights, every ray with the caller's frequency, width and switches, each switch reaching its own factor
+   (tx_ray_weights / rx_ray_weights take them in the order directivity, transrefl, beamspread, attenuation);
+   the scattering angles of both paths *)
+Theorem ray_weights_of_a_view : forall (T : Type) (N : Num T) paths views frequency width
+    use_directivity use_beamspread use_transrefl use_attenuation rw v,
+  ray_weights_for_views N paths views frequency width use_directivity use_beamspread use_transrefl use_attenuation = Some rw ->
+  In v views ->
+  exists ptx prx Qtx Qrx,
+    nth_error paths (v_tx v) = Some ptx /\ nth_error paths (v_rx v) = Some prx /\
+    path_tx_weights N use_directivity use_transrefl use_beamspread use_attenuation width frequency ptx = Some Qtx /\
+    path_rx_weights N use_directivity use_transrefl use_beamspread use_attenuation width frequency prx = Some Qrx /\
+    rw_tx rw (v_tx v) = Some Qtx /\ rw_rx rw (v_rx v) = Some Qrx /\
+    rw_angles rw (v_tx v) = Some (p_angles ptx) /\ rw_angles rw (v_rx v) = Some (p_angles prx).
+Proof. intros T N paths views frequency width ud ub ut ua rw v H Hv. exact (rwfv_view N paths views frequency width ud ub ut ua rw v H Hv). Qed.
+
+Theorem path_weights_are_ray_weights_tx : forall (T : Type) (N : Num T) ud ut ub ua width f (p : path) Q e s w,
+  path_tx_weights N ud ut ub ua width f p = Some Q -> get2 Q e s = Some w ->
+  exists r dict, get2 (p_rays p) e s = Some r /\ tx_ray_weights N ud ut ub ua width f (p_couplant p) r = Some (w, dict).
+Proof. intros T N ud ut ub ua width f p Q e s w H1 H2. exact (path_tx_weights_entry N ud ut ub ua width f p Q e s w H1 H2). Qed.
+
+Theorem path_weights_are_ray_weights_rx : forall (T : Type) (N : Num T) ud ut ub ua width f (p : path) Q e s w,
+  path_rx_weights N ud ut ub ua width f p = Some Q -> get2 Q e s = Some w ->
+  exists r dict, get2 (p_rays p) e s = Some r /\
+    rx_ray_weights N ud ut ub ua width f (p_couplant p) (p_block p) r = Some (w, dict).
+Proof. intros T N ud ut ub ua width f p Q e s w H1 H2. exact (path_rx_weights_entry N ud ut ub ua width f p Q e s w H1 H2). Qed.
+
+(* a path through which no view transmits (receives) has no transmit (receive) weights: KeyError *)
+Theorem ray_weights_no_tx_entry : forall (T : Type) (N : Num T) paths views f width ud ub ut ua rw k,
+  ray_weights_for_views N paths views f width ud ub ut ua = Some rw -> ~ In k (map v_tx views) -> rw_tx rw k = None.
+Proof. intros T N paths views f width ud ub ut ua rw k H Hk. exact (rwfv_no_tx N paths views f width ud ub ut ua rw k H Hk). Qed.
+
+Theorem ray_weights_no_rx_entry : forall (T : Type) (N : Num T) paths views f width ud ub ut ua rw k,
+  ray_weights_for_views N paths views f width ud ub ut ua = Some rw -> ~ In k (map v_rx views) -> rw_rx rw k = None.
+Proof. intros T N paths views f width ud ub ut ua rw k H Hk. exact (rwfv_no_rx N paths views f width ud ub ut ua rw k H Hk). Qed.
+
+(* ----- 5.2 first_nonzero_freq_idx ----- *)
+
+(* None with one frequency: bin 0 *)
+Theorem first_nonzero_default_one_frequency : default_first 1 None = 0%Z /\ first_bin 1 (default_first 1 None) = Some 0.
+Proof. exact (conj default_first_none_one first_bin_default_one). Qed.
+
+(* None with several frequencies: bin 1, the first bin is assumed to be the zero frequency *)
+Theorem first_nonzero_default_several_frequencies : forall n, 2 <= n ->
+  default_first n None = 1%Z /\ first_bin n (default_first n None) = Some 1.
+Proof. exact first_nonzero_several. Qed.
+
+(* an explicit 0 is honoured, whatever the number of frequencies *)
+Theorem first_nonzero_explicit_zero : forall n, default_first n (Some 0%Z) = 0%Z /\ first_bin n (default_first n (Some 0%Z)) = Some 0.
+Proof. intros n. exact (conj (default_first_some n 0%Z) (first_bin_explicit_zero n)). Qed.
+
+(* any explicit index: non-negative clipped at the number of frequencies (slice), negative counted from the
+   end, below -numfreq an IndexError on the first write *)
+Theorem first_nonzero_explicit : forall n z,
+  ((0 <= z)%Z -> first_bin n (default_first n (Some z)) = Some (Nat.min n (Z.to_nat z))) /\
+  ((- Z.of_nat n <= z < 0)%Z -> first_bin n (default_first n (Some z)) = Some (Z.to_nat (Z.of_nat n + z))) /\
+  (n <> 0 -> (z < - Z.of_nat n)%Z -> first_bin n (default_first n (Some z)) = None).
+Proof. exact first_nonzero_explicit_cases. Qed.
+
+(* ----- 5.3 scat_unshifted_transfer_functions ----- *)
+
+(* one result per view, in the order of the views; shapes (numscatterers, numtimetraces, numfreq) and
+   (numscatterers, numtimetraces) *)
+Theorem unshifted_tf_defined : forall (T : Type) (N : Num T) (P : T) paths views tx rx freqs so width
+    use_directivity use_beamspread use_transrefl use_attenuation a numangles first out,
+  scat_unshifted_transfer_functions N P paths views tx rx freqs so width
+    use_directivity use_beamspread use_transrefl use_attenuation a numangles first = Some out ->
+  forall vi v, nth_error views vi = Some v ->
+  length out = length views /\
+  exists off ptx prx H delays,
+    first_bin (length freqs) (default_first (length freqs) first) = Some off /\ off <= length freqs /\
+    nth_error out vi = Some (H, delays) /\
+    nth_error paths (v_tx v) = Some ptx /\ nth_error paths (v_rx v) = Some prx /\
+    view_delays N ptx prx tx rx = Some delays /\
+    length H = snd (shape2 (p_times ptx)) /\
+    (forall s rows, nth_error H s = Some rows -> length rows = length tx) /\
+    (forall s t row, get2 H s t = Some row -> length row = length freqs).
+Proof.
+  intros T N P paths views tx rx freqs so width ud ub ut ua a numangles first out H vi v Hv.
+  exact (unshifted_defined N P paths views tx rx freqs so width ud ub ut ua a numangles first out H vi v Hv).
+Qed.
+
+(* delays[s][t] = times of the tx path [tx[t]][s] + times of the rx path [rx[t]][s] (transposed) *)
+Theorem unshifted_tf_delays : forall (T : Type) (N : Num T) (ptx prx : path) tx rx D,
+  view_delays N ptx prx tx rx = Some D ->
+  length D = snd (shape2 (p_times ptx)) /\
+  (forall s row, nth_error D s = Some row -> length row = length tx) /\
+  forall s t zi zj, s < snd (shape2 (p_times ptx)) -> nth_error tx t = Some zi -> nth_error rx t = Some zj ->
+    exists i j d d', norm_index (length (p_times ptx)) zi = Some i /\ norm_index (length (p_times prx)) zj = Some j /\
+      get2 (p_times ptx) i s = Some d /\ get2 (p_times prx) j s = Some d' /\
+      get2 D s t = Some (nadd N d d').
+Proof. intros T N ptx prx tx rx D H. exact (view_delays_entry N ptx prx tx rx D H). Qed.
+
+(* the bins before first_nonzero_freq_idx are zero *)
+Theorem unshifted_tf_zero_bins : forall (T : Type) (N : Num T) (P : T) paths views tx rx freqs so width
+    use_directivity use_beamspread use_transrefl use_attenuation a numangles first out,
+  scat_unshifted_transfer_functions N P paths views tx rx freqs so width
+    use_directivity use_beamspread use_transrefl use_attenuation a numangles first = Some out ->
+  forall vi v H delays off, nth_error views vi = Some v -> nth_error out vi = Some (H, delays) ->
+  first_bin (length freqs) (default_first (length freqs) first) = Some off ->
+  forall s t b, s < length H -> t < length tx -> b < off -> get3 H s t b = Some (n0 (NumC N)).
+Proof.
+  intros T N P paths views tx rx freqs so width ud ub ut ua a numangles first out Hout vi v H delays off Hv Hvi Hoff.
+  exact (unshifted_zero_bins N P paths views tx rx freqs so width ud ub ut ua a numangles first out Hout vi v H delays off Hv Hvi Hoff).
+Qed.
+
+(* bin first + k = conj of model_amplitudes_factory(tx, rx, view, ray_weights_k, scattering_k, a)[...] with
+   ray_weights_k = ray_weights_for_views at THAT frequency with THE CALLER'S width and switches, each in its own
+   position, and scattering_k the precomputed matrices [k] or the functions at that frequency *)
+Theorem unshifted_tf_bin : forall (T : Type) (N : Num T) (P : T) paths views tx rx freqs so width
+    use_directivity use_beamspread use_transrefl use_attenuation a numangles first out,
+  scat_unshifted_transfer_functions N P paths views tx rx freqs so width
+    use_directivity use_beamspread use_transrefl use_attenuation a numangles first = Some out ->
+  forall vi v H delays off, nth_error views vi = Some v -> nth_error out vi = Some (H, delays) ->
+  first_bin (length freqs) (default_first (length freqs) first) = Some off ->
+  forall k f, nth_error freqs (off + k) = Some f ->
+  exists rw Pk,
+    ray_weights_for_views N paths views f width use_directivity use_beamspread use_transrefl use_attenuation = Some rw /\
+    model_coefficients N P tx rx v rw (scattering_at so (precompute so (skipn off freqs) numangles) k f) a = Some Pk /\
+    has_shape (length H) (length tx) Pk = true /\
+    forall s t, s < length H -> t < length tx ->
+      exists p, get2 Pk s t = Some p /\ get3 H s t (off + k) = Some (cconj N p).
+Proof.
+  intros T N P paths views tx rx freqs so width ud ub ut ua a numangles first out Hout vi v H delays off Hv Hvi Hoff.
+  exact (unshifted_bin N P paths views tx rx freqs so width ud ub ut ua a numangles first out Hout vi v H delays off Hv Hvi Hoff).
+Qed.
+
+(* ... entry by entry: H[s][t][first + k] = conj( S_f(theta_i - a, theta_j - a) * Q_i(f) * Q'_j(f) ), i = tx[t], j = rx[t],
+   Q_i the transmit weight of ray (i, s) of the view's tx path, Q'_j the receive weight of ray (j, s) of its rx path,
+   computed by the one-ray functions with (use_directivity, use_transrefl, use_beamspread, use_attenuation) exactly as
+   passed (a permutation of the switches would contradict this statement), theta the scattering angles of the two paths *)
+Theorem unshifted_tf_bin_formula : forall (T : Type) (N : Num T) (P : T) paths views tx rx freqs so width
+    use_directivity use_beamspread use_transrefl use_attenuation a numangles first out,
+  scat_unshifted_transfer_functions N P paths views tx rx freqs so width
+    use_directivity use_beamspread use_transrefl use_attenuation a numangles first = Some out ->
+  forall vi v H delays off, nth_error views vi = Some v -> nth_error out vi = Some (H, delays) ->
+  first_bin (length freqs) (default_first (length freqs) first) = Some off ->
+  forall k f s t zi zj, nth_error freqs (off + k) = Some f -> s < length H ->
+  nth_error tx t = Some zi -> nth_error rx t = Some zj ->
+  exists (ptx prx : path) i j r r' q dq q' dq' th th',
+    nth_error paths (v_tx v) = Some ptx /\ nth_error paths (v_rx v) = Some prx /\
+    norm_index (length (p_rays ptx)) zi = Some i /\ norm_index (length (p_rays ptx)) zj = Some j /\
+    get2 (p_rays ptx) i s = Some r /\ get2 (p_rays prx) j s = Some r' /\
+    tx_ray_weights N use_directivity use_transrefl use_beamspread use_attenuation width f (p_couplant ptx) r = Some (q, dq) /\
+    rx_ray_weights N use_directivity use_transrefl use_beamspread use_attenuation width f (p_couplant prx) (p_block prx) r'
+      = Some (q', dq') /\
+    get2 (p_angles ptx) i s = Some th /\ get2 (p_angles prx) j s = Some th' /\
+    get3 H s t (off + k)
+    = Some (cconj N (model_amplitude N
+                       (scat_fun N P (scattering_at so (precompute so (skipn off freqs) numangles) k f (v_scat v)))
+                       a q q' th th')).
+Proof.
+  intros T N P paths views tx rx freqs so width ud ub ut ua a numangles first out Hout vi v H delays off Hv Hvi Hoff.
+  exact (unshifted_bin_formula N P paths views tx rx freqs so width ud ub ut ua a numangles first out Hout vi v H delays off Hv Hvi Hoff).
+Qed.
+
+(* switching a factor off in the pipeline replaces exactly that factor by one, in every bin: from the factors
+   (d, tr, b, at) / (d', tr', b', at') of the all-enabled weights of the two rays, the bin computed with ANY switch
+   set is conj( S * prod(switched tx factors) * prod(switched rx factors) * sqrt(lambda) ) *)
+Theorem unshifted_tf_switch_off_is_one : forall (T : Type) (N : Num T) (P : T) paths views tx rx freqs so width
+    use_directivity use_beamspread use_transrefl use_attenuation a numangles first out,
+  scat_unshifted_transfer_functions N P paths views tx rx freqs so width
+    use_directivity use_beamspread use_transrefl use_attenuation a numangles first = Some out ->
+  forall vi v H delays off, nth_error views vi = Some v -> nth_error out vi = Some (H, delays) ->
+  first_bin (length freqs) (default_first (length freqs) first) = Some off ->
+  forall k f s t zi zj (ptx prx : path) i j r r' th th' w1 d tr b at' w1' d' tr' b' at'',
+  nth_error freqs (off + k) = Some f -> s < length H ->
+  nth_error tx t = Some zi -> nth_error rx t = Some zj ->
+  nth_error paths (v_tx v) = Some ptx -> nth_error paths (v_rx v) = Some prx ->
+  norm_index (length (p_rays ptx)) zi = Some i -> norm_index (length (p_rays ptx)) zj = Some j ->
+  get2 (p_rays ptx) i s = Some r -> get2 (p_rays prx) j s = Some r' ->
+  get2 (p_angles ptx) i s = Some th -> get2 (p_angles prx) j s = Some th' ->
+  tx_ray_weights N true true true true width f (p_couplant ptx) r = Some (w1, (d, tr, b, at')) ->
+  rx_ray_weights N true true true true width f (p_couplant prx) (p_block prx) r' = Some (w1', (d', tr', b', at'')) ->
+  get3 H s t (off + k)
+  = Some (cconj N (model_amplitude N
+            (scat_fun N P (scattering_at so (precompute so (skipn off freqs) numangles) k f (v_scat v))) a
+            (product4 N (switch use_directivity d (n1 N)) (switch use_transrefl tr (cre N (n1 N)))
+                        (switch use_beamspread b (n1 N)) (switch use_attenuation at' (n1 N)))
+            (nmul (NumC N)
+               (product4 N (switch use_directivity d' (n1 N)) (switch use_transrefl tr' (cre N (n1 N)))
+                           (switch use_beamspread b' (n1 N)) (switch use_attenuation at'' (n1 N)))
+               (cre N (nsqrt N (wavelength_in_block N (p_block prx) (r_lastmode r') f))))
+            th th')).
+Proof.
+  intros T N P paths views tx rx freqs so width ud ub ut ua a numangles first out Hout vi v H delays off Hv Hvi Hoff.
+  exact (unshifted_bin_switch N P paths views tx rx freqs so width ud ub ut ua a numangles first out Hout vi v H delays off Hv Hvi Hoff).
+Qed.
+
+(* reciprocity lifts: if at every non-zero frequency the coefficients of view v at (s, t) equal those of view v' at
+   (s, t') (C03's conclusion for a view, its reciprocal view and timetraces (i, j), (j, i)), the two rows of the
+   unshifted transfer functions are equal, bin by bin *)
+Theorem unshifted_tf_reciprocity : forall (T : Type) (N : Num T) (P : T) paths views tx rx freqs so width
+    use_directivity use_beamspread use_transrefl use_attenuation a numangles first out,
+  scat_unshifted_transfer_functions N P paths views tx rx freqs so width
+    use_directivity use_beamspread use_transrefl use_attenuation a numangles first = Some out ->
+  forall vi vi' v v' H H' D D' off,
+  nth_error views vi = Some v -> nth_error views vi' = Some v' ->
+  nth_error out vi = Some (H, D) -> nth_error out vi' = Some (H', D') ->
+  first_bin (length freqs) (default_first (length freqs) first) = Some off ->
+  forall s t t', s < length H -> s < length H' -> t < length tx -> t' < length tx ->
+  (forall k f rw Pk Pk',
+      nth_error freqs (off + k) = Some f ->
+      ray_weights_for_views N paths views f width use_directivity use_beamspread use_transrefl use_attenuation = Some rw ->
+      model_coefficients N P tx rx v rw (scattering_at so (precompute so (skipn off freqs) numangles) k f) a = Some Pk ->
+      model_coefficients N P tx rx v' rw (scattering_at so (precompute so (skipn off freqs) numangles) k f) a = Some Pk' ->
+      get2 Pk s t = get2 Pk' s t') ->
+  get2 H s t = get2 H' s t' /\ forall b, get3 H s t b = get3 H' s t' b.
+Proof.
+  intros T N P paths views tx rx freqs so width ud ub ut ua a numangles first out Hout vi vi' v v' H H' D D' off Hv Hv' Hvi Hvi' Hoff.
+  exact (unshifted_reciprocity N P paths views tx rx freqs so width ud ub ut ua a numangles first out Hout
+           vi vi' v v' H H' D D' off Hv Hv' Hvi Hvi' Hoff).
+Qed.
+
+(* ----- 5.4 timeshift_spectra, the sum over the scatterers, the two wrappers ----- *)
+
+(* out[s][t][b] = exp(-2j pi f_b delays[s][t]) * x[s][t][b]   (x[s][t][0] when x has ONE bin), shapes kept *)
+Theorem timeshift_spectra_entries : forall (T : Type) (N : Num T) X D freqs Y,
+  timeshift_spectra N X D freqs = Some Y ->
+  length Y = length X /\
+  (forall s Ys, nth_error Y s = Some Ys -> exists Xs, nth_error X s = Some Xs /\ length Ys = length Xs) /\
+  (forall s t y, get2 Y s t = Some y -> length y = length freqs) /\
+  forall s t x b f, get2 X s t = Some x -> nth_error freqs b = Some f ->
+    exists d xb, get2 D s t = Some d /\ spectrum_value x b = Some xb /\
+      get3 Y s t b = Some (nmul (NumC N) (phase N f d) xb).
+Proof. intros T N X D freqs Y H. exact (timeshift_spectra_entry N X D freqs Y H). Qed.
+
+(* the sum over the first axis, entry by entry, for any number of scatterers (numpy's order of accumulation) *)
+Theorem sum_over_scatterers_entries : forall (T : Type) (N : Num T) nt nf tf t b terms,
+  t < nt -> b < nf -> mapM (fun Y => get2 Y t b) tf = Some terms ->
+  get2 (sum_scatterers N nt nf tf) t b = Some (csum1 N terms).
+Proof. intros T N nt nf tf t b terms Ht Hb H. exact (sum_scatterers_entry N nt nf tf t b terms Ht Hb H). Qed.
+
+(* with one scatterer the sum is that scatterer's term (the code's `tf[0]` shortcut changes nothing) *)
+Theorem sum_one_scatterer_is_its_term : forall (T : Type) (N : Num T) nt nf Y p,
+  sum_scatterers N nt nf [Y] = Y /\ csum1 N [p] = p.
+Proof. intros T N nt nf Y p. exact (conj (sum_one_scatterer N nt nf Y) (csum1_one N p)). Qed.
+
+(* multifreq_scat_transfer_functions: per view (same order, same names),
+     tf[t][b] = sum_s exp(-2j pi f_b delays[s][t]) * H[s][t][b]
+   with (H, delays) what scat_unshifted_transfer_functions yields on the SAME arguments (default first index) *)
+Theorem multifreq_tf_is_sum_of_shifted : forall (T : Type) (N : Num T) (Name : Type) (P : T) paths
+    (views : list (Name * view)) tx rx so width use_directivity use_beamspread use_transrefl use_attenuation a numangles
+    freqs res vi name v,
+  multifreq_scat_transfer_functions N P paths views tx rx freqs so width
+    use_directivity use_beamspread use_transrefl use_attenuation a numangles = Some res ->
+  nth_error views vi = Some (name, v) ->
+  length res = length views /\
+  exists us H D tf,
+    scat_unshifted_transfer_functions N P paths (map snd views) tx rx freqs so width
+      use_directivity use_beamspread use_transrefl use_attenuation a numangles None = Some us /\
+    nth_error us vi = Some (H, D) /\ nth_error res vi = Some (name, tf) /\
+    shifted_sum N freqs (length tx) (H, D) = Some tf /\
+    forall t b f, t < length tx -> nth_error freqs b = Some f ->
+      exists terms, length terms = length H /\
+        (forall s, s < length H ->
+           exists d x xb, get2 D s t = Some d /\ get2 H s t = Some x /\ nth_error x b = Some xb /\
+             nth_error terms s = Some (nmul (NumC N) (phase N f d) xb)) /\
+        get2 tf t b = Some (csum1 N terms).
+Proof.
+  intros T N Name P paths views tx rx so width ud ub ut ua a numangles freqs res vi name v H Hv.
+  exact (multifreq_entry N P paths views tx rx so width ud ub ut ua a numangles freqs res vi name v H Hv).
+Qed.
+
+(* singlefreq_scat_transfer_functions: the unshifted function at the ONE frequency `frequency` (one bin),
+     tf[t][b] = sum_s exp(-2j pi f_b delays[s][t]) * H[s][t][0]      for every f_b of freq_array *)
+Theorem singlefreq_tf_is_sum_of_shifted : forall (T : Type) (N : Num T) (Name : Type) (P : T) paths
+    (views : list (Name * view)) tx rx so width use_directivity use_beamspread use_transrefl use_attenuation a numangles
+    frequency freqs res vi name v,
+  singlefreq_scat_transfer_functions N P paths views tx rx frequency freqs so width
+    use_directivity use_beamspread use_transrefl use_attenuation a numangles = Some res ->
+  nth_error views vi = Some (name, v) ->
+  length res = length views /\
+  exists us H D tf,
+    scat_unshifted_transfer_functions N P paths (map snd views) tx rx [frequency] so width
+      use_directivity use_beamspread use_transrefl use_attenuation a numangles None = Some us /\
+    nth_error us vi = Some (H, D) /\ nth_error res vi = Some (name, tf) /\
+    shifted_sum N freqs (length tx) (H, D) = Some tf /\
+    forall t b f, t < length tx -> nth_error freqs b = Some f ->
+      exists terms, length terms = length H /\
+        (forall s, s < length H ->
+           exists d x xb, get2 D s t = Some d /\ get2 H s t = Some x /\ x = [xb] /\
+             nth_error terms s = Some (nmul (NumC N) (phase N f d) xb)) /\
+        get2 tf t b = Some (csum1 N terms).
+Proof.
+  intros T N Name P paths views tx rx so width ud ub ut ua a numangles frequency freqs res vi name v H Hv.
+  exact (singlefreq_entry N P paths views tx rx so width ud ub ut ua a numangles frequency freqs res vi name v H Hv).
+Qed.
+
+(* over the reals: the phase factor and the product are those of Model/Dft.v (C11) — on the frequencies
+   k / (n dt) of an n-point transform the shift of one bin IS shift_spectrum —, np.conj is the complex
+   conjugate and the ordered accumulation is the sum *)
+Theorem timeshift_is_dft_shift_spectrum : forall (X : nat -> C) n dt delay k,
+  nmul (NumC NumR) (phase NumR (INR k / (INR n * dt))%R delay) (X k) = shift_spectrum X n dt delay k.
+Proof. exact timeshift_bin_is_shift_spectrum. Qed.
+
+Theorem pipeline_conj_is_complex_conjugate : forall z : R * R, cconj NumR z = Cconj z.
+Proof. exact cconj_R. Qed.
+
+Theorem ordered_sum_is_sum : forall l : list (R * R), csum1 NumR l = fold_right Cplus (RtoC 0) l.
+Proof. exact csum1_R. Qed.
+
 (* ===== non-vacuity ================================================================================ *)
 Section Examples.
   Local Open Scope Q_scope.
@@ -332,5 +651,49 @@ Section Examples.
     tx_ray_weights NumQ false true false true None 24000 water ray0
       = Some (cq (2#33) 0, (1, cq (2#33) 0, 1, 1)) /\
     tx_ray_weights NumQ true true false true None 24000 water ray0 = None.
+  Proof. vm_compute. repeat split; reflexivity. Qed.
+
+  (* the pipeline on one path (2 elements, 2 scatterers, every ray = ray0) used for transmission and reception,
+     one view, timetraces (0,0) (1,0) (1,-1), frequencies [0; 6000; 24000], scattering
+     S_f(x, y) = 1 + 2x + 3y + i (f/6000) x, rotation 1/8: bin 0 stays zero, bins 1 and 2 are the conjugated
+     coefficients (e.g. scatterer 1, timetrace 2, bin 2: conj(S_24000(-5/8, -5/8) * 1/33 * 32/33)), delays are
+     sums of times; with an explicit first index 0 on [6000; 24000] both bins are computed, with None the first
+     is left at zero; directivity without element width raises *)
+  Let p0 := mkPath water steel [[ray0; ray0]; [ray0; ray0]] [[1#4; 1#2]; [-(1#4); -(1#2)]] [[1; 2]; [3; 4]].
+  Let sobj : scat_obj := mkScat None (fun f _ x y => (1 + 2 * x + 3 * y, (f / 6000) * x)) (fun _ _ _ => []).
+  Let vw := mkView 0 0 (ModeL, ModeL).
+  Let txl := [0; 1; 1]%Z.
+  Let rxl := [0; 0; -1]%Z.
+  Example pipeline_example :
+    scat_unshifted_transfer_functions NumQ 0 [p0] [vw] txl rxl [0; 6000; 24000] sobj (Some (1#1000)) true true true true (1#8) 0%Z None
+      = Some [([[[(0, 0); (104 # 1089, -8 # 1089); (52 # 1089, -16 # 1089)];
+                 [(0, 0); (40 # 1089, 8 # 363); (20 # 1089, 16 # 363)];
+                 [(0, 0); (-56 # 1089, 8 # 363); (-28 # 1089, 16 # 363)]];
+                [[(0, 0); (184 # 1089, -8 # 363); (92 # 1089, -16 # 363)];
+                 [(0, 0); (56 # 1089, 40 # 1089); (28 # 1089, 80 # 1089)];
+                 [(0, 0); (-136 # 1089, 40 # 1089); (-68 # 1089, 80 # 1089)]]],
+               [[2; 4; 6]; [4; 6; 8]])] /\
+    omap (map (fun u => get3 (fst u) 1 2 0)) (scat_unshifted_transfer_functions NumQ 0 [p0] [vw] txl rxl [6000; 24000] sobj
+             (Some (1#1000)) true true true true (1#8) 0%Z (Some 0%Z)) = Some [Some (-136 # 1089, 40 # 1089)] /\
+    omap (map (fun u => get3 (fst u) 1 2 0)) (scat_unshifted_transfer_functions NumQ 0 [p0] [vw] txl rxl [6000; 24000] sobj
+             (Some (1#1000)) true true true true (1#8) 0%Z None) = Some [Some (0, 0)] /\
+    scat_unshifted_transfer_functions NumQ 0 [p0] [vw] txl rxl [0; 6000; 24000] sobj None true true true true (1#8) 0%Z None = None /\
+    (* the wrappers on the same path with zero travel times (over Q only a zero phase is computable): sums over
+       the two scatterers; the single-frequency one repeats the value at 24000 in every bin *)
+    (let p0z := mkPath water steel [[ray0; ray0]; [ray0; ray0]] [[1#4; 1#2]; [-(1#4); -(1#2)]] [[0; 0]; [0; 0]] in
+     multifreq_scat_transfer_functions NumQ 0 [p0z] [(7%nat, vw)] txl rxl [0; 6000; 24000] sobj (Some (1#1000)) true true true true (1#8) 0%Z
+       = Some [(7%nat, [[(0, 0); (32 # 121, -32 # 1089); (16 # 121, -64 # 1089)];
+                        [(0, 0); (32 # 363, 64 # 1089); (16 # 363, 128 # 1089)];
+                        [(0, 0); (-64 # 363, 64 # 1089); (-32 # 363, 128 # 1089)]])] /\
+     singlefreq_scat_transfer_functions NumQ 0 [p0z] [(7%nat, vw)] txl rxl 24000 [0; 6000; 24000] sobj (Some (1#1000)) true true true true (1#8) 0%Z
+       = Some [(7%nat, [[(16 # 121, -64 # 1089); (16 # 121, -64 # 1089); (16 # 121, -64 # 1089)];
+                        [(16 # 363, 128 # 1089); (16 # 363, 128 # 1089); (16 # 363, 128 # 1089)];
+                        [(-32 # 363, 128 # 1089); (-32 # 363, 128 # 1089); (-32 # 363, 128 # 1089)]])]) /\
+    (* two views sharing the tx path 0, one receiving through path 1: one entry per path, path 1 has no transmit weights *)
+    omap (map (fun e => (e_path e, match e_tx e with Some _ => true | None => false end,
+                                   match e_rx e with Some _ => true | None => false end)))
+         (ray_weights_for_views NumQ [p0; p0] [mkView 0 1 (ModeL, ModeL); mkView 0 0 (ModeL, ModeL)] 24000 (Some (1#1000))
+                                true true true true)
+      = Some [(1%nat, false, true); (0%nat, true, true)].
   Proof. vm_compute. repeat split; reflexivity. Qed.
 End Examples.
